@@ -507,9 +507,15 @@ func (e *c15Env) addressing(fn *ssa.Function) c15Addr {
 			if callee == nil || !isOwn(callee) || !backSlice(x, sliceOpts{ThroughCalls: true})[a.hash] {
 				break
 			}
+			viaBucket := func(v ssa.Value) bool { // the bucket address depends on the hash too: a lane read through it is no signature
+				pt, ok := v.Type().Underlying().(*types.Pointer)
+				return ok && e.isT(pt.Elem(), "bucket")
+			}
 			if e.isT(x.Type(), "partialKey") {
-				a.sig = x
-				nSig++
+				if backSlice(x, sliceOpts{ThroughCalls: true, Stop: viaBucket})[a.hash] {
+					a.sig = x
+					nSig++
+				}
 			} else if pt, ok := x.Type().Underlying().(*types.Pointer); ok && e.isT(pt.Elem(), "bucket") {
 				a.bucket = x
 				nIx++
